@@ -440,9 +440,65 @@ def check_builders_total_on_weights(ctx, F):
                 ctx.ok('R2', role, b.defpath, '%d panicking exit(s), all in front of the merge loop and decided by len() / is_empty() of the list' % n, key=key)
 
 
+def check_builder_size_arithmetic(ctx, F):
+    """The builders size their node table as `len * 2 - 1` (`len * 2` for the decoder) with plain operators, and the unchecked
+    writes of the encoder builder rely on that table ("which we checked is nonzero").  A plain `-` on the length of the
+    caller's list is right only behind a decision that the list is not empty, a plain `*` only behind an upper bound on
+    the length; otherwise an empty list panics with "attempt to subtract with overflow" in a debug build and wraps to a
+    table of usize::MAX entries in a release build."""
+    is_len = lambda x: isinstance(x, tuple) and x and ((x[0] == 'call' and str(x[1]).endswith('::len')) or x[0] == 'len')
+    for tree in (ENC, DEC):
+        for b in [x for x in F.bodies if x.promoted is None and x.name == BUILDER and x.self_adt == tree]:
+            key = 'R9/builder-size-arithmetic/' + b.defpath
+            role = 'plain arithmetic on the length of the caller\'s list is guarded on the path'
+            try:
+                _, paths = rules.evaluate(b)
+            except sym.TooManyPaths:
+                ctx.unresolved('R9', role, b.defpath, 'too many paths', key=key)
+                continue
+            ctx.touch(b)
+            n = 0
+            bad = None
+            for r in paths or []:
+                for i, e in enumerate(r.events):
+                    if e['kind'] != 'ovf_check' or not sym.contains(e['cond'], is_len):
+                        continue
+                    msg = str(e.get('msg'))
+                    before = r.preds[:rules.preds_before(r, i)]
+                    if 'Sub' in msg:
+                        n += 1
+                        nonempty = False
+                        for t, v, _ in before:
+                            t = rules.inline_pure(F, t)
+                            if isinstance(t, tuple) and t and t[0] == 'call' and str(t[1]).endswith('::is_empty') and not v:
+                                nonempty = True
+                            if isinstance(t, tuple) and t and t[0] == 'bin' and sym.contains(t, is_len):
+                                a, c = t[2], t[3]
+                                zero = lambda x: x == sym.mk_int(0)
+                                one = lambda x: x == sym.mk_int(1)
+                                if (t[1] == 'Eq' and not v and (zero(a) or zero(c))) or (t[1] == 'Ne' and v and (zero(a) or zero(c))) \
+                                        or (t[1] == 'Lt' and v and zero(a)) or (t[1] == 'Le' and v and one(a)) or (t[1] == 'Lt' and not v and one(c)) or (t[1] == 'Le' and not v and zero(c)) \
+                                        or (t[1] == 'Gt' and v and zero(c)) or (t[1] == 'Ge' and v and one(c)):
+                                    nonempty = True
+                        if not nonempty:
+                            bad = bad or ('`%s` at %s is reached without a decision that the list is not empty: for an empty list a debug build panics with "attempt to subtract with overflow", a release build wraps and asks for a table of usize::MAX nodes' % (sym.show(e['cond'])[:60], e['span'].split('-')[0]))
+                    elif 'Mul' in msg:
+                        n += 1
+                        bounded = any(v is not None and isinstance(t, tuple) and t and t[0] == 'bin' and t[1] in ('Lt', 'Le', 'Gt', 'Ge') and sym.contains(t, is_len) and sym.contains(t, lambda y: isinstance(y, tuple) and y and y[0] == 'bin' and y[1] == 'Div') for t, v, _ in before)
+                        if not bounded:
+                            bad = bad or ('`%s` at %s is reached without an upper bound on the length of the list' % (sym.show(e['cond'])[:60], e['span'].split('-')[0]))
+            if bad:
+                ctx.bad('R9', role, b.defpath, bad, key=key, loc=rules.loc(b))
+            elif n:
+                ctx.ok('R9', role, b.defpath, '%d overflow-checked operation(s) on the length, each behind an emptiness decision (`-`) or an upper bound (`*`)' % n, key=key)
+            else:
+                ctx.ok('R9', role, b.defpath, 'no plain `-` or `*` on the length of the list', key=key)
+
+
 def run(ctx):
     F = ctx.F
     check_wrapper_siblings(ctx, F)
+    check_builder_size_arithmetic(ctx, F)
     check_builders_total_on_weights(ctx, F)
     check_weight_wrapper(ctx, F)
     check_num_symbols(ctx, F)
